@@ -1822,6 +1822,25 @@ class TaskDispatcher(object):
                         )
 
 
+                if redelivered and not async_child:
+                    """
+                    The child execution may already have ended: while the
+                    engine was down, or after the restart but before this
+                    redelivered Task event arrived. Its completion found no
+                    pending request then, so nothing else is going to deliver
+                    its result: take it from the child's execution record.
+                    """
+                    child_detail = self.state_engine.executions.get(child_execution_arn)
+                    if child_detail and child_detail.get("status") not in (None, "RUNNING"):
+                        child_detail = dict(child_detail)
+                        child_output = child_detail.get("output")
+                        self.handle_sfn_response(
+                            correlation_id,
+                            json.loads(child_detail.get("input") or "{}"),
+                            json.loads(child_output) if child_output else child_output,
+                            child_detail
+                        )
+
                 """
                 For "fire and forget"/async child executions we trigger the
                 Task state on_response() handler immediately with the result.
